@@ -695,6 +695,20 @@ func (p *Prog) valuesVisitsEveryShard(r *Report, rule string) {
 				}
 			}
 		}
+		// and the sweep cannot be bypassed: no return before the loop over the shards (a side flag such as "nothing was
+		// ever added" is not updated under the shard locks, so a reader that has seen a key added can still see it unset)
+		bypass := false
+		for _, l := range sliceRangeLoops(fn) {
+			if fieldKeyOfLoad(l.over) != "cmap.Map.shards" || len(l.header.Instrs) == 0 {
+				continue
+			}
+			for _, ret := range returnsOf(fn) {
+				if !instrDominates(l.header.Instrs[0], ret) {
+					bypass = true
+				}
+			}
+		}
+		r.check(!bypass, rule, name+" cannot return without sweeping the shards", p.pos(fn.Pos()), fnName(fn), "the loop over m.shards dominates every return", name+" can return before looking at the shards (e.g. on a `populated` flag that is set only after the insert has completed and its waiters were woken): a goroutine released for a key then calls "+name+" and does not find it")
 		r.check(n > 0 && bad == 0, rule, name+" visits every shard", p.pos(fn.Pos()), fnName(fn), "every access m.shards[i] is inside a loop bounded by len(m.shards)", name+" indexes the shards inside a loop that is not bounded by len(m.shards) (e.g. by the mask, which is one less): the last shard is never visited, so targets that hash into it are missing from AllTargets() - never used as roots by the cycle detector, never listed by queries")
 	}
 }
